@@ -34,6 +34,7 @@
     Anything outside the fragment evaluates to [Stuck], which makes the
     equivalence proofs fail (fail closed). *)
 From Coq Require Import QArith Qround Qabs ZArith List Bool String.
+From Coq Require Import Ascii DecimalString.
 From Verde Require Import Lib.QExtra Model.Coordinates.
 Import ListNotations.
 Open Scope string_scope.
@@ -75,7 +76,8 @@ Inductive expr :=
 | EIdx (a : expr) (i : expr)                 (* a[i], i computed (negative: from the end) *)
 | ESliceTo (a : expr) (k : Z)                (* a[:k]  (k = -1: all but the last; k >= 0: first k) *)
 | ESliceFrom (a : expr) (k : Z)              (* a[k:], k >= 0 *)
-| ECallStar (f : string) (args : list expr) (star : expr)    (* f(args, *star): the elements of the sequence star are further positional arguments *)
+| ECallStar (f : string) (args : list expr) (star : expr)    (* f(args, *star): the elements of the sequence [star] are the last positional arguments *)
+| ECompT (k : comp_kind) (targets : list string) (it : expr) (body : expr)    (* a comprehension with a tuple target: e for a, b in it *)
 | ESliceToE (a : expr) (k : expr).           (* a[:k], k computed and >= 0 (a negative k counts from the end: outside the fragment) *)
 
 Inductive stmt :=
@@ -92,6 +94,11 @@ Inductive stmt :=
 | SRaise
 | SReturn (e : expr)
 | SPass
+| SMethod (x : string) (m : string) (args : list expr)
+    (* x.m(args) as a statement, where the method may mutate x (fit): x is rebound to the object that the
+       specification "mut:m" in the [user] table returns for (x :: args); the method's result is dropped.
+       Faithful when no alias of x is live: the serialiser admits it for [self] only, and only in functions
+       where [self] occurs in no other way than [self.a], [self.m(..)] and [return self] *)
 | SSetCol (x : string) (i : expr) (e : expr).   (* x[:, i] = e, x a 2-D array, e a 1-D array with one element per row *)
 
 Record func := { f_params : list string; f_body : list stmt }.
@@ -184,6 +191,7 @@ Definition binop_val (op : binop) (a b : val) : option val :=
       else None
   | VA l, _ => bc_l op b a
   | _, VA r => bc_r op a b
+  | VS x, VS y => match op with Add => Some (VS (x ++ y)) | _ => None end   (* str + str *)
   | _, _ => arith op a b
   end.
 
@@ -419,6 +427,45 @@ Definition all_scalar (l : list val) : bool := forallb is_scalar l.
 Definition unB (l : list val) : option (list bool) :=
   map_opt (fun v => match v with VB b => Some b | _ => None end) l.
 
+(** zip: the tuples of the i-th elements, up to the shortest sequence *)
+Fixpoint heads_tails (ls : list (list val)) : option (list val * list (list val)) :=
+  match ls with
+  | [] => Some ([], [])
+  | [] :: _ => None
+  | (x :: t) :: r => match heads_tails r with Some (hs, ts) => Some (x :: hs, t :: ts) | None => None end
+  end.
+Fixpoint zipn (fuel : nat) (ls : list (list val)) : list val :=
+  match fuel with
+  | O => []
+  | S k => match heads_tails ls with Some (hs, ts) => VT hs :: zipn k ts | None => [] end
+  end.
+
+(** the elements of an array in row-major order *)
+Fixpoint flatten_arr (v : val) : list val :=
+  match v with VA l => flat_map flatten_arr l | x => [x] end.
+
+(** fmt.format(arg) for a format string with exactly one replacement field, the plain "{}", and no other
+    brace; [arg] already rendered by str() *)
+Fixpoint has_brace (s : string) : bool :=
+  match s with
+  | EmptyString => false
+  | String c r => Ascii.eqb c "{"%char || Ascii.eqb c "}"%char || has_brace r
+  end.
+Fixpoint format_one (fmt arg : string) : option string :=
+  match fmt with
+  | EmptyString => None
+  | String c r =>
+      if Ascii.eqb c "{"%char then
+        match r with
+        | String d r' => if Ascii.eqb d "}"%char && negb (has_brace r') then Some (arg ++ r') else None
+        | EmptyString => None
+        end
+      else if Ascii.eqb c "}"%char then None
+      else option_map (String c) (format_one r arg)
+  end.
+(** str(z) of a Python int *)
+Definition str_of_Z (z : Z) : string := NilZero.string_of_int (Z.to_int z).
+
 (** x in seq for a list / tuple of scalars, strings or tuples (== on each element, left to right) *)
 Fixpoint member (x : val) (l : list val) : option bool :=
   match l with
@@ -555,11 +602,38 @@ Definition call (f : string) (args : list val) : option (option val) :=   (* Non
     match args with [VA l] => if all_scalar l then Some (Some (VA l)) else None | _ => None end
   else if is "attr:size" then
     match args with [VA l] => if all_scalar l then Some (Some (VZ (Z.of_nat (List.length l)))) else None | _ => None end
-  else if is "zip" then                 (* zip(a, b): pairs, as long as the shorter one (rendered as a list: only iterated) *)
+  else if is "attr:shape" then       (* a.shape of a (rectangular) array; an object's own attribute otherwise *)
     match args with
-    | [a; b] => match seq_of a, seq_of b with
-                | Some l, Some r => Some (Some (VL (map (fun p => VT [fst p; snd p]) (combine l r))))
-                | _, _ => None end
+    | [VA l] => if rect (VA l) then Some (Some (VT (map (fun n => VZ (Z.of_nat n)) (shape_of (VA l))))) else None
+    | [VO _ fs] => match lookup fs "shape" with Some v => Some (Some v) | None => None end
+    | _ => None
+    end
+  else if String.prefix "attr:" f then      (* obj.a: an attribute set in this function, or given with the object *)
+    match args with
+    | [VO _ fs] => match lookup fs (String.substring 5 (String.length f - 5) f) with
+                   | Some v => Some (Some v)
+                   | None => None end
+    | _ => None
+    end
+  else if is "meth:format" then       (* "..{}..".format(x), x an int or a str *)
+    match args with
+    | [VS fmt; VZ z] => match format_one fmt (str_of_Z z) with Some r => Some (Some (VS r)) | None => None end
+    | [VS fmt; VS a] => match format_one fmt a with Some r => Some (Some (VS r)) | None => None end
+    | _ => None
+    end
+  else if is "zip" then               (* zip(s1, .., sn): tuples up to the shortest sequence (rendered as a list: only iterated) *)
+    match map_opt seq_of args with
+    | Some ls => Some (Some (VL (zipn (List.length (hd [] ls)) ls)))
+    | None => None
+    end
+  else if is "meth:reshape" then      (* a.reshape((n,)) / a.reshape((-1,)): the elements in row-major order; ValueError if the sizes differ *)
+    match args with
+    | [VA l; VT [VZ n]] =>
+        if rect (VA l) then
+          let fl := flatten_arr (VA l) in
+          if (n =? -1)%Z || (n =? Z.of_nat (List.length fl))%Z then Some (Some (VA fl))
+          else if (0 <=? n)%Z then Some None else None
+        else None
     | _ => None
     end
   else if is "in" then                  (* x in seq: the serialiser renders `a in e` for a non-literal e as a call of "in" *)
@@ -575,14 +649,25 @@ Definition call (f : string) (args : list val) : option (option val) :=   (* Non
     end
   else if is "np.ravel" then            (* a 1-D array is its own raveling *)
     match args with [VA l] => if all_scalar l then Some (Some (VA l)) else None | _ => None end
-  else if String.prefix "attr:" f then      (* obj.a: an attribute set in this function, or given with the object *)
-    match args with
-    | [VO _ fs] => match lookup fs (String.substring 5 (String.length f - 5) f) with
-                   | Some v => Some (Some v)
-                   | None => None end
-    | _ => None
-    end
   else None.
+
+(** binding the target(s) of a comprehension with a tuple target (the same as [bind_pattern] below) *)
+Fixpoint comp_bind_targets (targets : list string) (vs : list val) (env : list (string * val))
+  : option (list (string * val)) :=
+  match targets, vs with
+  | [], [] => Some env
+  | x :: t, v :: r => comp_bind_targets t r ((x, v) :: env)
+  | _, _ => None
+  end.
+Definition comp_bind (targets : list string) (v : val) (env : list (string * val))
+  : list (string * val) + bool :=
+  match targets with
+  | [x] => inl ((x, v) :: env)
+  | _ => match seq_of v with
+         | Some vs => match comp_bind_targets targets vs env with Some env' => inl env' | None => inr true end
+         | None => inr false
+         end
+  end.
 
 Section Eval.
 (** functions of the same module that the fragment may call, given by their
@@ -765,10 +850,23 @@ Fixpoint eval (env : list (string * val)) (e : expr) {struct e} : option (option
           match eval env star with
           | Some (Some sv) =>
               match seq_of sv with
-              | Some more => match user f with Some g => g (vs ++ more)%list | None => call f (vs ++ more)%list end
+              | Some extra => match user f with Some g => g (vs ++ extra)%list | None => call f (vs ++ extra)%list end
               | None => None
               end
           | Some None => Some None
+          | None => None
+          end
+      | Some None => Some None
+      | None => None
+      end
+  | ECompT k targets it body =>
+      match eval env it with
+      | Some (Some v) =>
+          match seq_of v with
+          | Some vs => comp_loop k (fun v => match comp_bind targets v env with
+                                             | inl env' => eval env' body
+                                             | inr true => Some None
+                                             | inr false => None end) vs
           | None => None
           end
       | Some None => Some None
@@ -976,6 +1074,19 @@ Fixpoint exec (s : stmt) (env : list (string * val)) {struct s} : outcome :=
   | SRaise => Raised
   | SReturn e => match eval env e with Some (Some v) => Returned v | Some None => Raised | None => Stuck end
   | SPass => Normal env
+  | SMethod x m args =>
+      match lookup env x, eval env (ETuple args) with
+      | Some self, Some (Some (VT vs)) =>
+          match user ("mut:" ++ m) with
+          | Some g => match g (self :: vs) with
+                      | Some (Some self') => Normal ((x, self') :: env)
+                      | Some None => Raised
+                      | None => Stuck end
+          | None => Stuck
+          end
+      | Some _, Some None => Raised
+      | _, _ => Stuck
+      end
   | SSetCol x i e =>
       match lookup env x, eval env i, eval env e with
       | Some a, Some (Some (VZ j)), Some (Some v) =>
